@@ -117,6 +117,7 @@ theorem quiet_step (s : St) (ev : REv) (hq : quiet ev = true) :
         | true => simp only [List.count_append, List.count_cons, List.count_nil]; omega
         | false => simp
   | setData _ => cases hq
+  | streamWrite _ => cases hq
   | close => cases hq
   | getWsgi _ _ _ => cases hq
   | iterClose => cases hq
@@ -142,5 +143,21 @@ theorem runEvs_append (s : St) (a b : List REv) : runEvs s (a ++ b) = runEvs (ru
   induction a generalizing s with
   | nil => rfl
   | cons x t ih => simp only [List.cons_append, runEvs, ih]
+
+/-- `headers.pop(key, None)` leaves no entry of that key (under any spelling) -/
+theorem popKey_getlist (h : HList) (k k' : Str) (hk : lower k = lower k') :
+    getlist (popKey h k' (some [])).1 k = [] := by
+  rw [C16L.getlist_congr _ hk]
+  simp only [popKey]
+  cases hg : getKey h k' with
+  | ok v => exact C16L.delKey_getlist _ _
+  | error e =>
+    simp only []
+    apply C16L.not_contains_getlist
+    unfold Hdr.contains
+    unfold getKey at hg
+    cases hf : h.find? (keyEq k') with
+    | none => rfl
+    | some p => rw [hf] at hg; cases hg
 
 end Wz.C05L
